@@ -50,6 +50,23 @@ theorem C15_method_tables :
     (∀ mf ∈ METHOD_TABLE, mf.2.ipv4 = true ∧ mf.2.loopback_proxy_port = true) := by
   decide
 
+/-- Name servers are filed under IPv6 exactly when their text contains a colon (the source's
+`family_ip_tuple` is that test: regenerated flag), whatever else the text contains — a zone id
+(`fe80::1%eth0`), an embedded IPv4 part, a compressed run of zeros. -/
+theorem C15_ns_family (t : String) :
+    FAMILY_IP_TUPLE_BY_COLON = true ∧ (familyOfText t = Fam.v6 ↔ ':' ∈ t.toList) := by
+  refine ⟨by decide, ?_⟩
+  unfold familyOfText
+  by_cases h : t.toList.contains ':' = true
+  · simp only [h, ↓reduceIte, true_iff]; simpa using h
+  · simp only [h, Bool.false_eq_true, ↓reduceIte]
+    constructor
+    · intro hc; cases hc
+    · intro hm; exact absurd (by simpa using hm) h
+
+example : familyOfText "fe80::1%eth0" = Fam.v6 ∧ familyOfText "::ffff:1.2.3.4" = Fam.v6 ∧
+    familyOfText "8.8.8.8" = Fam.v4 := by decide
+
 /-! ## 1. Never an internal error -/
 
 /-- **C15_total.** For every command line and every environment whose method supports IPv4
